@@ -7,7 +7,7 @@ _TB = ("Trusted base: clang 14 front end (AST, CFG, constant evaluator), the pyt
 
 CLAIMS = {
     "C01": {
-        "text": "Decides the table/database/dispatch clauses only: every entry of the encoder's constant lookup tables equals an independent oracle (exhaustive, 1237 entries), every instruction row's main/alt opcode (prefix, map, byte, /digit) occurs in a db/isa_x86.json form of the mnemonic (1769 cells), every encoding class has a dispatch case, FIXUP_GPB constants, pc-relative displacements account for the trailing immediate and take the current position from the writer cursor, REX is the last prefix and FWAIT precedes the overrides on every path, register ids are not compared before FIXUP_GPB, packed ModRM fields are not tested after a merge, generated tables regenerate identically (thorough).; invalid-marker entries of the 16-bit addressing tables are tested before use; operands are reinterpreted only as the kind the dominating test established; the displacement-less ModRM form excludes BP/R13 (16-bit: the disp16 slot), a path that knows the operand has an index register reads its scale before the instruction is closed, 64-bit immediates are range-tested unsigned or on both sides, and the validator consults the EVEX-capability flags the register allocator uses before it can accept vector registers 16..31 Does not decide ModRM/immediate arithmetic over operand values. Also (round 8): no ModRM/SIB path of _emit ends without the kind of the base (label / register) having been tested (R-LABEL-BASE-LOOKED-AT).",
+        "text": "Decides the table/database/dispatch clauses only: every entry of the encoder's constant lookup tables equals an independent oracle (exhaustive, 1237 entries), every instruction row's main/alt opcode (prefix, map, byte, /digit) occurs in a db/isa_x86.json form of the mnemonic (1769 cells), every encoding class has a dispatch case, FIXUP_GPB constants, pc-relative displacements account for the trailing immediate and take the current position from the writer cursor, REX is the last prefix and FWAIT precedes the overrides on every path, register ids are not compared before FIXUP_GPB, packed ModRM fields are not tested after a merge, generated tables regenerate identically (thorough).; invalid-marker entries of the 16-bit addressing tables are tested before use; operands are reinterpreted only as the kind the dominating test established; the displacement-less ModRM form excludes BP/R13 (16-bit: the disp16 slot), a path that knows the operand has an index register reads its scale before the instruction is closed, 64-bit immediates are range-tested unsigned or on both sides, and the validator consults the EVEX-capability flags the register allocator uses before it can accept vector registers 16..31 Does not decide ModRM/immediate arithmetic over operand values. Also (round 8): no ModRM/SIB path of _emit ends without the kind of the base (label / register) having been tested (R-LABEL-BASE-LOOKED-AT). Round 9: the two opcode bytes composed for the x87 arithmetic register forms equal the database form of the same operand order (both branches of kEncodingFpuArith folded from the source, R-FPU-ARITH-BYTE-BY-ORDER); the segment prefix of an implicit memory operand is written only after its base id was compared with zdi, and the two-memory string case selects the overridable operand by base id (R-ES-OPERAND-NOT-OVERRIDABLE, positions from db/isa_x86.json).",
         "design_ref": "DESIGN.md section 3 / C01",
         "note": _TB,
         "technique": "constant-evaluated table dump (clang APValue) compared with independent oracle tables and the ISA database; switch-coverage lint",
@@ -34,7 +34,7 @@ CLAIMS = {
         "text": "Decides: the per-convention records built by init_call_conv (argument register order, preserved masks, "
                 "stack alignment, red/spill zones, flags) equal the platform ABI oracle, and the 64-bit aliasing of conventions; AArch64 stack "
                 "arguments are aligned exactly when their size reaches the alignment; the x86 argument mover sign-extends exactly the signed "
-                "narrower-source pairs.; a computed stack alignment is computed from the argument's size and a vector branch never aligns to a constant below 16; x86 stack slots are at least register sized, advance only for stack-passed arguments and are aligned for vectors; a convention's own register order is not replaced by a shared block; RegUtils::signature_of_vec_by_size folds to the vector type of the size; subscripts of the register orders are bounded; an exchange is as wide as the wider variable; float/double argument conversions have the direction the branch condition states Does not decide argument classification as a whole or the parallel-move solver.",
+                "narrower-source pairs.; a computed stack alignment is computed from the argument's size and a vector branch never aligns to a constant below 16; x86 stack slots are at least register sized, advance only for stack-passed arguments and are aligned for vectors; a convention's own register order is not replaced by a shared block; RegUtils::signature_of_vec_by_size folds to the vector type of the size; subscripts of the register orders are bounded; an exchange is as wide as the wider variable; float/double argument conversions have the direction the branch condition states Does not decide argument classification as a whole or the parallel-move solver. Round 9: the register class of a returned float is chosen by a condition that mentions the convention (R-FLOAT-RET-FOLLOWS-ARG-CLASS).",
         "design_ref": "DESIGN.md section 3 / C06",
         "note": _TB,
         "technique": "AST extraction of constant setter arguments per (arch branch, convention case) compared with an ABI oracle table",
@@ -55,7 +55,7 @@ CLAIMS = {
     },
     "C10": {
         "text": "Decides clauses C10.a-c: every write into the caller's buffer is bounded by dst_size, sections are inserted at a lower_bound over "
-                "(order, id), flatten's overflow exits precede any offset assignment. Layout walks iterate the layout order; Section::real_size() folds to max(virtual, buffer) on a value grid. flatten advances by the real size; the address table's written slots are covered by its buffer size on every successful path of relocate_to_base. flatten() calls set_offset() on every path of an iteration and gives alignment padding only to non-empty sections; bound tests do not add two unbounded sizes Does not decide layout arithmetic.",
+                "(order, id), flatten's overflow exits precede any offset assignment. Layout walks iterate the layout order; Section::real_size() folds to max(virtual, buffer) on a value grid. flatten advances by the real size; the address table's written slots are covered by its buffer size on every successful path of relocate_to_base. flatten() calls set_offset() on every path of an iteration and gives alignment padding only to non-empty sections; bound tests do not add two unbounded sizes Does not decide layout arithmetic. Round 9: every iteration of copy_flattened_data's loop passes the bounds test and the padding decision (R-COPY-VISITS-EVERY-SECTION).",
         "design_ref": "DESIGN.md section 3 / C10",
         "note": _TB,
         "technique": "dominance of bounds tests over memcpy/memset sinks, structural comparator match, CFG reachability",
@@ -122,7 +122,7 @@ CLAIMS = {
     },
     "C20": {
         "text": "Decides name-table clauses C20.a-c: enumerator-to-text maps equal the enumerator names, x86 register name tables equal the architectural "
-                "names for every (type, id) (exhaustive), the machine-code column is fed from the writer's buffer range and its hex runs tile the instruction bytes (linear forms), a register is printed with its own type (base/index pairing).; (v)snprintf results are bounded before they index or size the buffer; no transcript line is logged before the last step that can refuse the call; a resolved abstract type id is the one that is formatted; x86 size keywords are returned for exactly their size; wzr/wsp/xzr/sp are appended only under the case label of their width Does not decide operand rendering per value.",
+                "names for every (type, id) (exhaustive), the machine-code column is fed from the writer's buffer range and its hex runs tile the instruction bytes (linear forms), a register is printed with its own type (base/index pairing).; (v)snprintf results are bounded before they index or size the buffer; no transcript line is logged before the last step that can refuse the call; a resolved abstract type id is the one that is formatted; x86 size keywords are returned for exactly their size; wzr/wsp/xzr/sp are appended only under the case label of their width Does not decide operand rendering per value. Round 9: the displacement printed by format_operand derives from the full-width Mem::offset() (R-FORMAT-FULL-OFFSET).",
         "design_ref": "DESIGN.md section 3 / C20",
         "note": _TB,
         "technique": "constant-evaluated table dump vs oracle; argument provenance",
